@@ -1,6 +1,6 @@
 SPECIFICATION Spec
 CONSTANTS
-  Scripts = {"raiser_a", "raiser_b", "plain"}
+  Scripts = {"raiser_a", "raiser_b", "plain", "qpool"}
   Subs = {"uselen", "ok"}
   MaxLen = 2
   ClearResets <- CodeClearResets
